@@ -132,10 +132,15 @@ theorem mergeRemoteRtx_codec (remote : List Media) (mid : Str) (fa : List Str ×
     · exact h
     · exact foldl_appendRtx_codec _ _ _ _ h
 
-theorem t38Attrs_codec : AllCodec t38Attrs := by
+theorem t38Attrs_codec (l : List T38Cap) : AllCodec (l.flatMap t38AttrsOf) := by
   intro a ha
-  simp only [t38Attrs, List.mem_cons, List.mem_nil_iff, or_false] at ha
-  rcases ha with h | h | h | h | h | h <;> subst h <;> unfold CodecKey <;> decide
+  obtain ⟨t, _, ha⟩ := List.mem_flatMap.mp ha
+  simp only [t38AttrsOf, List.mem_cons, List.mem_nil_iff, or_false] at ha
+  have hk : a.key = "T38FaxVersion".toList ∨ a.key = "T38MaxBitRate".toList ∨ a.key = "T38FaxRateManagement".toList ∨
+      a.key = "T38FaxMaxBuffer".toList ∨ a.key = "T38FaxMaxDatagram".toList ∨ a.key = "T38FaxUdpEC".toList := by
+    rcases ha with h | h | h | h | h | h <;> subst h <;> simp [attr]
+  unfold CodecKey
+  rcases hk with h | h | h | h | h | h <;> rw [h] <;> decide
 
 /-- the codec part (before the extmap / setup attributes are appended) only produces codec keys -/
 theorem codecPart_codec (c : Cfg) (k : Kind) (remote : List Media) (hasLocal : Bool) (mid : Str) :
@@ -152,7 +157,7 @@ theorem codecPart_codec (c : Cfg) (k : Kind) (remote : List Media) (hasLocal : B
     intro a ha
     simp only [List.mem_singleton] at ha
     subst ha; right; right; right; right; left; rfl
-  | image => exact t38Attrs_codec
+  | image => exact t38Attrs_codec _
 
 /-- two lists related position by position -/
 inductive Aligned {α β : Type} (R : α → β → Prop) : List α → List β → Prop
@@ -260,7 +265,7 @@ theorem findIdxFrom_spec (p : Nat → TrxView → Bool) (ts : List TrxView) (i j
 
 /-- how an offered section and the transceiver chosen for it are related -/
 def Matches (o : Media) (t : TrxView) : Prop :=
-  (o.mid ≠ [] ∧ t.mid = some o.mid) ∨ (o.mid = [] ∧ t.kind = o.kind)
+  (o.mid ≠ [] ∧ t.mid = some o.mid ∧ t.kind = o.kind) ∨ (o.mid = [] ∧ t.kind = o.kind)
 
 theorem answerOrder_matches (ts : List TrxView) (secs : List Media) (used : List Nat) (acc out : List (Nat × Bool))
     (h : answerOrder ts secs used acc = some out) :
@@ -279,15 +284,38 @@ theorem answerOrder_matches (ts : List TrxView) (secs : List Media) (used : List
       · split at hi
         · rename_i hmid
           obtain ⟨t, hget, hp, _⟩ := findIdxFrom_spec _ _ _ _ hi
-          refine ⟨t, by simpa using hget, Or.inl ⟨?_, ?_⟩⟩
+          refine ⟨t, by simpa using hget, Or.inl ⟨?_, ?_, ?_⟩⟩
           · intro e; simp [e] at hmid
           · simp only [Bool.and_eq_true, decide_eq_true_eq] at hp; exact hp.2
+          · simp only [Bool.and_eq_true, decide_eq_true_eq] at hp; exact hp.1.2
         · rename_i hmid
           obtain ⟨t, hget, hp, _⟩ := findIdxFrom_spec _ _ _ _ hi
           refine ⟨t, by simpa using hget, Or.inr ⟨?_, ?_⟩⟩
           · simpa using hmid
           · simp only [Bool.and_eq_true, decide_eq_true_eq] at hp; exact hp.2
     · cases h
+
+theorem zipAll_and_left (P Q : Media → Media → Bool) (os as : List Media)
+    (h : zipAll (fun o s => P o s && Q o s) os as = true) : zipAll P os as = true := by
+  induction os generalizing as with
+  | nil => cases as <;> simp_all [zipAll]
+  | cons o os ih =>
+    cases as with
+    | nil => simp [zipAll] at h
+    | cons s ss =>
+      simp only [zipAll, Bool.and_eq_true] at h ⊢
+      exact ⟨h.1.1, ih ss h.2⟩
+
+theorem zipAll_and_right (P Q : Media → Media → Bool) (os as : List Media)
+    (h : zipAll (fun o s => P o s && Q o s) os as = true) : zipAll Q os as = true := by
+  induction os generalizing as with
+  | nil => cases as <;> simp_all [zipAll]
+  | cons o os ih =>
+    cases as with
+    | nil => simp [zipAll] at h
+    | cons s ss =>
+      simp only [zipAll, Bool.and_eq_true] at h ⊢
+      exact ⟨h.1.2, ih ss h.2⟩
 
 theorem zipAll_map_right (P : Media → Media → Bool) (f : Media → Media) (hf : ∀ o s, P o (f s) = P o s)
     (secs l : List Media) : zipAll P secs (l.map f) = zipAll P secs l := by
@@ -598,31 +626,29 @@ theorem reinvite_audio_formats_offered (c : Cfg) (remote : List Media) (hasLocal
   have hcp : (codecPart c .audio remote hasLocal mid).1 = caps.map (fun a => natStr a.pt) := by
     simp [codecPart, h, applyAudioCaps]
   unfold reinviteAudioCaps at h
+  dsimp only at h
   split at h
   · cases h
-  · dsimp only at h
+  · rename_i r hr
     split at h
     · cases h
-    · rename_i r hr
-      split at h
-      · cases h
-      · simp only [Option.some.injEq] at h
-        subst h
-        have hmem : r ∈ remote ∧ r.kind = .audio ∧ (mid = [] ∨ r.mid = mid) := by
-          split at hr
-          · rename_i hm
-            have := List.find?_some hr
-            exact ⟨List.mem_of_find?_eq_some hr, by simpa using this, Or.inl (by simpa using hm)⟩
-          · have := List.find?_some hr
-            simp only [Bool.and_eq_true, decide_eq_true_eq] at this
-            exact ⟨List.mem_of_find?_eq_some hr, this.1, Or.inr this.2⟩
-        refine ⟨r, hmem.1, hmem.2.1, hmem.2.2, ?_⟩
-        intro f hf
-        rw [hcp] at hf
-        obtain ⟨a, ha, rfl⟩ := List.mem_map.mp hf
-        obtain ⟨f', hf', hp⟩ := deriveAnswerAudio_pt r c.audioCaps a ha
-        rw [hcanon r hmem.1 f' hf' a.pt hp]
-        exact hf'
+    · simp only [Option.some.injEq] at h
+      subst h
+      have hmem : r ∈ remote ∧ r.kind = .audio ∧ (mid = [] ∨ r.mid = mid) := by
+        split at hr
+        · rename_i hm
+          have := List.find?_some hr
+          exact ⟨List.mem_of_find?_eq_some hr, by simpa using this, Or.inl (by simpa using hm)⟩
+        · have := List.find?_some hr
+          simp only [Bool.and_eq_true, decide_eq_true_eq] at this
+          exact ⟨List.mem_of_find?_eq_some hr, this.1, Or.inr this.2⟩
+      refine ⟨r, hmem.1, hmem.2.1, hmem.2.2, ?_⟩
+      intro f hf
+      rw [hcp] at hf
+      obtain ⟨a, ha, rfl⟩ := List.mem_map.mp hf
+      obtain ⟨f', hf', hp⟩ := deriveAnswerAudio_pt r c.audioCaps a ha
+      rw [hcanon r hmem.1 f' hf' a.pt hp]
+      exact hf'
 
 
 /-! ### RTX strip and echo -/
@@ -928,6 +954,250 @@ theorem video_rtx_echo_offered (c : Cfg) (remote : List Media) (hasLocal : Bool)
   rcases mergeRemoteRtx_apt _ _ _ _ h with h' | h'
   · rw [aptMap_stripRtx] at h'; cases h'
   · exact h'
+
+
+
+/-- the id token of an echoed extension line -/
+theorem extAttr_id (id uri : Str) (hid : IsTok id) : (splitWs (id ++ sp ++ uri)).head? = some id := by
+  have : id ++ sp ++ uri = id ++ ' ' :: uri := by simp [sp]
+  rw [this]
+  exact splitWs_head_tok id uri hid
+
+
+/-! ### echoed extension ids are pairwise distinct -/
+
+theorem nodup_filterMap_inj {α β : Type} (f : α → Option β) (l : List α) (h : (l.filterMap f).Nodup) (a b : α) (x : β)
+    (ha : a ∈ l) (hb : b ∈ l) (hfa : f a = some x) (hfb : f b = some x) : a = b := by
+  induction l with
+  | nil => cases ha
+  | cons c rest ih =>
+    have hmem : ∀ d ∈ rest, f d = some x → x ∈ rest.filterMap f := fun d hd hf => List.mem_filterMap.mpr ⟨d, hd, hf⟩
+    cases hc : f c with
+    | none =>
+      rw [List.filterMap_cons_none hc] at h
+      rcases List.mem_cons.mp ha with e1 | e1
+      · subst e1; rw [hc] at hfa; cases hfa
+      · rcases List.mem_cons.mp hb with e2 | e2
+        · subst e2; rw [hc] at hfb; cases hfb
+        · exact ih h e1 e2
+    | some y =>
+      rw [List.filterMap_cons_some hc, List.nodup_cons] at h
+      rcases List.mem_cons.mp ha with e1 | e1 <;> rcases List.mem_cons.mp hb with e2 | e2
+      · rw [e1, e2]
+      · subst e1; rw [hc] at hfa; injection hfa with e; subst e
+        exact absurd (hmem b e2 hfb) h.1
+      · subst e2; rw [hc] at hfb; injection hfb with e; subst e
+        exact absurd (hmem a e1 hfa) h.1
+      · exact ih h.2 e1 e2
+
+/-- what `get_remote_extmap_id` found: an `a=extmap` line containing the URI whose first token is the id -/
+theorem remoteExtId_go_spec (attrs : List Attr) (uri id : Str) (h : remoteExtId.go uri attrs = some id) :
+    ∃ v, (⟨"extmap".toList, some v⟩ : Attr) ∈ attrs ∧ (splitWs v).head? = some id ∧ containsSub v uri = true := by
+  induction attrs with
+  | nil => simp [remoteExtId.go] at h
+  | cons a rest ih =>
+    unfold remoteExtId.go at h
+    split at h
+    · obtain ⟨v, hv, ht⟩ := ih h
+      exact ⟨v, List.mem_cons_of_mem _ hv, ht⟩
+    · rename_i hk
+      split at h
+      · cases h
+      · rename_i v hav
+        split at h
+        · rename_i hcont
+          split at h
+          · rename_i t ts hs
+            simp only [Option.some.injEq] at h
+            subst h
+            refine ⟨v, ?_, by simp [hs], hcont⟩
+            have hkey : a.key = "extmap".toList := by simpa using hk
+            have : a = ⟨"extmap".toList, some v⟩ := by cases a; simp_all
+            rw [this]; exact List.mem_cons_self
+          · obtain ⟨v', hv, ht⟩ := ih h
+            exact ⟨v', List.mem_cons_of_mem _ hv, ht⟩
+        · obtain ⟨v', hv, ht⟩ := ih h
+          exact ⟨v', List.mem_cons_of_mem _ hv, ht⟩
+
+def knownUris : List Str := [RID_URI, RRID_URI, ABS_URI, MID_URI]
+
+/-- an offered section whose extension lines are well-formed for the echo: distinct ids, and no line
+mentions two of the URIs the answerer looks for -/
+def ExtWF (r : Media) : Prop :=
+  (extIds r).Nodup ∧
+  ∀ v ∈ attrVals r.attrs "extmap", ∀ u1 ∈ knownUris, ∀ u2 ∈ knownUris,
+    containsSub v u1 = true → containsSub v u2 = true → u1 = u2
+
+instance (r : Media) : Decidable (ExtWF r) := by unfold ExtWF; infer_instance
+
+/-- different URIs are echoed with different ids -/
+theorem remoteExtId_inj (remote : List Media) (mid : Str) (r : Media)
+    (hr : remote.find? (fun s => s.mid = mid) = some r) (hwf : ExtWF r)
+    (u1 u2 x : Str) (h1 : u1 ∈ knownUris) (h2 : u2 ∈ knownUris)
+    (hx1 : remoteExtId remote mid u1 = some x) (hx2 : remoteExtId remote mid u2 = some x) : u1 = u2 := by
+  unfold remoteExtId at hx1 hx2
+  rw [hr] at hx1 hx2
+  dsimp only at hx1 hx2
+  obtain ⟨v1, hm1, hh1, hc1⟩ := remoteExtId_go_spec _ _ _ hx1
+  obtain ⟨v2, hm2, hh2, hc2⟩ := remoteExtId_go_spec _ _ _ hx2
+  have hv1 : v1 ∈ attrVals r.attrs "extmap" := (mem_attrVals _ _ _).mpr ⟨_, hm1, rfl, rfl⟩
+  have hv2 : v2 ∈ attrVals r.attrs "extmap" := (mem_attrVals _ _ _).mpr ⟨_, hm2, rfl, rfl⟩
+  have : v1 = v2 := nodup_filterMap_inj _ _ hwf.1 v1 v2 x hv1 hv2 hh1 hh2
+  subst this
+  exact hwf.2 v1 hv1 u1 h1 u2 h2 hc1 hc2
+
+/-- the attribute(s) echoed for one URI, and the id list they contribute -/
+def echo (remote : List Media) (mid : Str) (uri : Str) : List Attr :=
+  match remoteExtId remote mid uri with | some id => [extAttr id uri] | none => []
+
+def echoIds (remote : List Media) (mid : Str) (uri : Str) : List Str :=
+  match remoteExtId remote mid uri with | some id => [id] | none => []
+
+def echoUris (c : Cfg) (k : Kind) : List Str :=
+  (if k = .video then [RID_URI, RRID_URI] else []) ++ [ABS_URI] ++ (if c.legacySip then [] else [MID_URI])
+
+theorem extmapAttrs_eq (c : Cfg) (k : Kind) (remote : List Media) (mid : Str) :
+    extmapAttrs c k remote mid = (echoUris c k).flatMap (echo remote mid) := by
+  have key : ∀ (us : List Str), us.flatMap (echo remote mid) =
+      us.flatMap (fun u => match remoteExtId remote mid u with | some id => [extAttr id u] | none => []) := by
+    intro us; rfl
+  unfold extmapAttrs echoUris
+  rw [key]
+  by_cases hk : k = .video <;> by_cases hl : c.legacySip = true <;>
+    simp only [hk, hl, if_true, if_false, List.flatMap_cons, List.flatMap_nil, List.append_nil, List.nil_append,
+      List.cons_append, List.append_assoc, reduceCtorEq] <;>
+    (cases remoteExtId remote mid RID_URI <;> cases remoteExtId remote mid RRID_URI <;>
+      cases remoteExtId remote mid ABS_URI <;> cases remoteExtId remote mid MID_URI <;> rfl)
+
+theorem remoteExtId_tok (remote : List Media) (mid uri id : Str) (h : remoteExtId remote mid uri = some id) : IsTok id := by
+  unfold remoteExtId at h
+  split at h
+  · cases h
+  · obtain ⟨v, _, hh, _⟩ := remoteExtId_go_spec _ _ _ h
+    apply splitWs_tokens v
+    cases hs : splitWs v with
+    | nil => simp [hs] at hh
+    | cons x xs => simp only [hs, List.head?_cons, Option.some.injEq] at hh; subst hh; simp
+
+def idsOfAttrs (l : List Attr) : List Str := (attrVals l "extmap").filterMap (fun v => (splitWs v).head?)
+
+theorem idsOfAttrs_append (l1 l2 : List Attr) : idsOfAttrs (l1 ++ l2) = idsOfAttrs l1 ++ idsOfAttrs l2 := by
+  simp [idsOfAttrs, attrVals_append, List.filterMap_append]
+
+theorem idsOfAttrs_echo (remote : List Media) (mid uri : Str) :
+    idsOfAttrs (echo remote mid uri) = echoIds remote mid uri := by
+  unfold echo echoIds
+  cases h : remoteExtId remote mid uri with
+  | none => rfl
+  | some id =>
+    have htok := remoteExtId_tok remote mid uri id h
+    have e := extAttr_id id uri htok
+    simp only [idsOfAttrs, attrVals, extAttr, attr, List.filterMap_cons, List.filterMap_nil, if_true]
+    rw [e]
+
+theorem idsOfAttrs_flatMap_echo (remote : List Media) (mid : Str) (us : List Str) :
+    idsOfAttrs (us.flatMap (echo remote mid)) = us.flatMap (echoIds remote mid) := by
+  induction us with
+  | nil => rfl
+  | cons u rest ih => simp only [List.flatMap_cons, idsOfAttrs_append, idsOfAttrs_echo, ih]
+
+theorem nodup_flatMap_echoIds (remote : List Media) (mid : Str) (r : Media)
+    (hr : remote.find? (fun s => s.mid = mid) = some r) (hwf : ExtWF r)
+    (us : List Str) (hsub : ∀ u ∈ us, u ∈ knownUris) (hnd : us.Nodup) :
+    (us.flatMap (echoIds remote mid)).Nodup := by
+  induction us with
+  | nil => simp
+  | cons u rest ih =>
+    rw [List.nodup_cons] at hnd
+    simp only [List.flatMap_cons]
+    rw [List.nodup_append]
+    refine ⟨?_, ih (fun x hx => hsub x (by simp [hx])) hnd.2, ?_⟩
+    · unfold echoIds; split <;> simp
+    · intro a ha b hb hab
+      subst hab
+      unfold echoIds at ha
+      split at ha
+      · rename_i id hid
+        simp only [List.mem_singleton] at ha
+        subst ha
+        obtain ⟨u', hu', hb'⟩ := List.mem_flatMap.mp hb
+        unfold echoIds at hb'
+        split at hb'
+        · rename_i id' hid'
+          simp only [List.mem_singleton] at hb'
+          subst hb'
+          have := remoteExtId_inj remote mid r hr hwf u u' a (hsub u (by simp)) (hsub u' (by simp [hu'])) hid hid'
+          subst this
+          exact hnd.1 hu'
+        · cases hb'
+      · cases ha
+
+
+theorem echoUris_known (c : Cfg) (k : Kind) : ∀ u ∈ echoUris c k, u ∈ knownUris := by
+  intro u hu
+  unfold echoUris at hu
+  unfold knownUris
+  simp only [List.mem_append, List.mem_cons, List.mem_nil_iff, or_false] at hu ⊢
+  rcases hu with (hu | hu) | hu
+  · split at hu
+    · simp only [List.mem_cons, List.mem_nil_iff, or_false] at hu
+      rcases hu with h | h
+      · exact Or.inl h
+      · exact Or.inr (Or.inl h)
+    · cases hu
+  · exact Or.inr (Or.inr (Or.inl hu))
+  · split at hu
+    · cases hu
+    · simp only [List.mem_cons, List.mem_nil_iff, or_false] at hu
+      exact Or.inr (Or.inr (Or.inr hu))
+
+theorem echoUris_nodup (c : Cfg) (k : Kind) : (echoUris c k).Nodup := by
+  unfold echoUris
+  by_cases hk : k = .video <;> by_cases hl : c.legacySip = true <;>
+    simp only [hk, hl, if_true, if_false, List.nil_append, List.append_nil, List.cons_append, reduceCtorEq] <;> decide
+
+theorem setupAttrs_noext (c : Cfg) (role : Option Bool) : ∀ a ∈ setupAttrs c role, a.key ≠ "extmap".toList := by
+  intro a ha
+  unfold setupAttrs at ha
+  split at ha
+  · simp only [List.mem_singleton] at ha
+    subst ha
+    simp only [attr]
+    decide
+  · cases ha
+
+/-- **no duplicate extension ids**: when the consulted remote section is well-formed for the echo
+(`ExtWF`: its ids are pairwise distinct and no line mentions two of the looked-up URIs), the ids of the
+answer section are pairwise distinct. -/
+theorem extIds_answerSection_nodup (c : Cfg) (t : TrxView) (remote : List Media) (hasLocal : Bool) (role : Option Bool)
+    (mid : Str) (mux : Bool) (r : Media) (hr : remote.find? (fun s => s.mid = mid) = some r) (hwf : ExtWF r) :
+    (extIds (answerSection c t remote hasLocal role mid mux)).Nodup := by
+  have hne : "extmap".toList ≠ "rtcp-mux".toList := by decide
+  have hA : idsOfAttrs ((codecPart c t.kind remote hasLocal mid).2 ++ extmapAttrs c t.kind remote mid ++ setupAttrs c role) =
+      (echoUris c t.kind).flatMap (echoIds remote mid) := by
+    rw [idsOfAttrs_append, idsOfAttrs_append]
+    have h1 : idsOfAttrs (codecPart c t.kind remote hasLocal mid).2 = [] := by
+      unfold idsOfAttrs
+      rw [attrVals_nil_of_keys _ "extmap" (fun a ha => (codecPart_codec c t.kind remote hasLocal mid a ha).not_extmap)]
+      rfl
+    have h3 : idsOfAttrs (setupAttrs c role) = [] := by
+      unfold idsOfAttrs
+      rw [attrVals_nil_of_keys _ "extmap" (setupAttrs_noext c role)]
+      rfl
+    rw [h1, h3, extmapAttrs_eq, idsOfAttrs_flatMap_echo]
+    simp
+  have hids : extIds (answerSection c t remote hasLocal role mid mux) = (echoUris c t.kind).flatMap (echoIds remote mid) := by
+    show idsOfAttrs (answerSection c t remote hasLocal role mid mux).attrs = _
+    unfold answerSection capabilities
+    dsimp only
+    cases mux
+    · rw [if_neg (by decide)]
+      unfold idsOfAttrs
+      rw [attrVals_filter_other _ "extmap" "rtcp-mux" hne]
+      exact hA
+    · rw [if_pos rfl]; exact hA
+  rw [hids]
+  exact nodup_flatMap_echoIds remote mid r hr hwf _ (echoUris_known c t.kind) (echoUris_nodup c t.kind)
 
 
 end RtcModel.Answer
